@@ -48,6 +48,29 @@ class Symbols:
                         if kind == 'const':
                             val = e.edge_overrides.get(f"{oname}/{v}", default)
                             self.EPsym[(i, oname, v)] = self._sym(val, f"e{i}/{oname}/{v}")
+        # parallel edges (same source variable, same target variable, no edge operator, same delay): the compiler may
+        # fold their weights into ONE number - bind the sum of the weights to the sum of their symbols
+        import itertools
+        groups = {}
+        for i, e in enumerate(spec.edges):
+            if e.template is None:
+                groups.setdefault((e.src, e.tgt, e.delay, e.spread), []).append(i)
+        for idxs in groups.values():
+            for r in range(2, min(len(idxs), 4) + 1):
+                for sub in itertools.combinations(idxs, r):
+                    # (an omitted weight attribute means 1)
+                    tot = sum(Fraction(1 if spec.edges[i].weight is None else spec.edges[i].weight) for i in sub)
+                    if tot in (0, 1, -1) or all(spec.edges[i].weight is None for i in sub):
+                        continue
+                    acc = self.Wsym.get(sub[0], symx.val(1))
+                    for i in sub[1:]:
+                        acc = acc + self.Wsym.get(i, symx.val(1))
+                    if tot in self.table:
+                        if str(self.table[tot].e) != str(acc.e):
+                            raise ValueError(f'spec reuses a fingerprint: the weight sum {tot} of edges {sub} is also the '
+                                             f'value of {self.table[tot].e}')
+                        continue
+                    self.table[tot] = acc
 
     def _sym(self, val, name):
         val = Fraction(val)
